@@ -79,6 +79,13 @@ class C12Engine(SimEngine):
         return out
 
 
+def _sweep(tier: str):
+    from .simprop import close_overlap_family
+    cases = close_overlap_family(thin=8 if tier == "quick" else 1)
+    return ("close-overlap family: gather_and_close()/flush() blocked on a task in a slow callback while one of the other workers fails, "
+            "returns or is let go in every order (ticks a,b in 0..2, c in 0..1, gates k in 0..3, k2 in 0..2, both return_exceptions values)", cases, len(cases))
+
+
 def _engine() -> C12Engine:
     prof = profile(p_worker_raise=0.45, p_cb_raise=0.3, p_callfault=0.25, p_cb=0.7, sizes=[1, 2, 2, 3, None], p_iter_raise=0.08, p_bad_return=0.05,
                    ops={"flush": 2, "close": 0, "spawn": 9, "gate": 8, "cancel": 1, "cancel_group": 0.5, "lock": 0.2, "stop": 0.5},
@@ -92,7 +99,8 @@ def _engine() -> C12Engine:
         "with >= 2 healthy invocations. Distinct = program hash.",
         [("default", prof, 0.9), ("two-pools", dict(prof, max_pools=2), 0.1)],
         lambda case, l: "twin:compared" in l and "twin:>=2-healthy" in l,
-        n_quick=3000, n_thorough=150000, floors={"twin:compared": 0.4, "fault:callback": 0.15, "fault:worker": 0.2})
+        n_quick=3000, n_thorough=150000, floors={"twin:compared": 0.4, "fault:callback": 0.15, "fault:worker": 0.2},
+        sweep=_sweep)
 
 
 ENGINE = _engine()
